@@ -35,8 +35,8 @@ func run(c *core.Ctx) error {
 	if c.Thorough() {
 		insts = append(insts,
 			instance{name: "exhaustive", b: Bounds{MaxLen: 5, MaxLenBinS: 3, MaxLenT: 2, IdxRange: 7, MaxPad: 7, MaxRep: 3}},
-			instance{name: "simulated-long", b: Bounds{MaxLen: 10, MaxLenBinS: 0, MaxLenT: 0, IdxRange: 22, MaxPad: 14, MaxRep: 2}, simulate: "num=1500", depth: 12},
-			instance{name: "simulated-pairs", b: Bounds{MaxLen: 6, MaxLenBinS: 6, MaxLenT: 4, IdxRange: 8, MaxPad: 8, MaxRep: 2}, simulate: "num=6000", depth: 12},
+			instance{name: "simulated-long", b: Bounds{MaxLen: 10, MaxLenBinS: 0, MaxLenT: 0, IdxRange: 22, MaxPad: 14, MaxRep: 2}, simulate: "num=400", depth: 12},
+			instance{name: "simulated-pairs", b: Bounds{MaxLen: 6, MaxLenBinS: 6, MaxLenT: 4, IdxRange: 8, MaxPad: 8, MaxRep: 2}, simulate: "num=1200", depth: 12},
 		)
 	} else {
 		insts = append(insts,
